@@ -19,8 +19,8 @@ def build_driver(build, bufsz, variant="san"):
     return build.harness(variant, "rt_driver%s" % (bufsz or "real"), ["rt_driver.c"], extra=extra)
 
 
-def run_case(exe, casedir, ops, short="-", keep=False, tmpdir=False):
-    if os.path.exists(casedir):
+def run_case(exe, casedir, ops, short="-", keep=False, tmpdir=False, fresh=True):
+    if fresh and os.path.exists(casedir):
         shutil.rmtree(casedir)
     env = dict(os.environ)
     env.pop("VERIF_TMPDIR", None)
@@ -357,6 +357,37 @@ def run_c01(prop, tier):
                               {"engine": "E1 rt_driver", "bufsz": 97, "program": prog, "short": "-", "oracle": "C01"},
                               {"kind": "sequence"})
         ctx.part("sequences", depth=depth, alphabet=alpha, runs=len(progs))
+        # (v) not from the initial state: the trace directory already holds the streams of an earlier run of a thread with
+        # the same pid/tid (a restarted job in a PID namespace); the second run's stream must hold the second run's events only
+        first = [list(p) for p in itertools.product(alpha, repeat=2)] + [[a] for a in alpha] + [["j80", "j80", "j80", "e16:8+8"]]
+        second = [[a] for a in alpha] + ([] if tier == "quick" else [list(p) for p in itertools.product(alpha[:6], repeat=2)])
+        rr = [(a, b, t) for a in first for b in second for t in (False, True) if not (tier == "quick" and t and len(a) > 1)]
+
+        def one5(j):
+            a, b, t = j
+            cd = os.path.join(base, "r%d" % os.getpid())
+            rc, err, log = run_case(exe, cd, a, tmpdir=t)
+            if "DONE" not in log:
+                return "SKIP"
+            n1 = os.path.getsize(os.path.join(stream_path(cd), "stream.obs"))
+            rc, err, log = run_case(exe, cd, b, tmpdir=t, fresh=False)
+            msg = oracle(cd, log, rc, err)
+            if msg and msg != "ABORTED":
+                n2 = os.path.getsize(os.path.join(stream_path(cd), "stream.obs"))
+                return "%s (first run left %d bytes, the stream now has %d)" % (msg, n1, n2)
+            return msg
+        nshr = 0
+        for (a, b, t), msg in zip(rr, pmap(one5, rr)):
+            ctx.add(evaluations=1, transitions=len(a) + len(b))
+            if msg in ("SKIP", "ABORTED"):
+                continue
+            nshr += 1
+            if msg is not None:
+                ctx.violation("second run %s in a trace directory that holds the stream of an earlier run %s of the same thread%s (B=97): %s" % (
+                    b, a, " (OVNI_TMPDIR)" if t else "", msg),
+                    {"engine": "E1 rt_driver", "bufsz": 97, "first_program": a, "program": b, "short": "-", "oracle": "C01", "tmpdir": t},
+                    {"kind": "rerun-same-dir", "tmpdir": t})
+        ctx.part("rerun-same-directory", runs=len(rr), judged=nshr)
         ctx.sample({"program": ["j2097099", "e16"], "meaning": "filler jumbo to fill level B-37, then a 28-byte event"})
         ctx.sample({"program": progs[len(progs) // 2], "bufsz": 97})
         ctx.cov["rule"] = ("state = fill level of the staging buffer; every operation (all payload sizes 0,2..16, every jumbo size, flush, "
